@@ -923,7 +923,11 @@ void h_bounded_count(void)
   S.is_solved = 0;
   S.perm.dim = 0; S.perm.p = NULL; S.invp.dim = 0; S.invp.p = NULL; gv_pos.dim = 0; gv_pos.p = NULL;
   S.minx_t = ALL; S.minx_n = 0; S.minx_i = NULL;      /* state after the constructor (init()) */
-  S.s_tol = 0; S.nullity = 0; S.N0 = 0;
+  S.s_tol = 0;
+  { Index old_nullity, old_N0;   /* a solver that is REUSED (reset(A,b) after an earlier, possibly rank-deficient solve -- the retry path of
+                                    LocalNetwork::null_space) still holds the bookkeeping of that solve: arbitrary here */
+    __CPROVER_assume(0 <= old_nullity && old_nullity <= GV_BN && 0 <= old_N0 && old_N0 <= GV_BN);   /* left by a solve within the same bound */
+    S.nullity = old_nullity; S.N0 = old_N0; }
   gv_exc = 0;
   AdjCholDec_solve(&S);
   __CPROVER_assert(gv_exc == 0 || gv_exc == GV_BadRegularization, "bounded: only BadRegularization may be raised");
